@@ -17,4 +17,22 @@ CLAIMED = {
     },
 }
 
+CLAIMED["C16"] = {
+    "design_ref": "DESIGN.md §4 C16, notes/C16.md",
+    "text": "Coq theorems over every history of the nine payment-store operations on both backends: settled "
+            "plus in-flight attempt amounts never exceed the payment amount (amounts < 2^63 msat); RegisterAttempt "
+            "and InitPayment gates; reported status equals the documented table and every returned MPPayment is "
+            "the stored state; Succeeded and Failed are stable; SQL's in-flight query equals KV's. KV and SQL "
+            "refine one store on histories with fresh attempt ids and owner-addressed settle/fail; Coq witnesses "
+            "show they differ otherwise (known findings C16-F1..F3). Model tied to the real KVStore (bbolt) and "
+            "SQLStore (sqlite) by answer-by-answer differential runs of the same seeded histories, a "
+            "model-independent predicate on each backend's trace and a direct KV-vs-SQL comparison.",
+    "note": "Trusted: Coq kernel, harness, python driver, bbolt/sqlite transaction atomicity (one model step per "
+            "API call). Refinement is partial (discipline hypothesis). Concurrent callers are covered through "
+            "linearisation only (theorems quantify over all op orders); no concurrent harness. uint64 wrap excluded "
+            "by a stated domain guard. Fees, sequence index, bulk DeletePayments not modelled.",
+    "technique": "Coq proof (invariant by induction over op histories, two-backend refinement) + three-way "
+                 "differential correspondence KV/SQL/model",
+}
+
 NOT_CLAIMED = {}
